@@ -48,9 +48,12 @@ type c14Method struct {
 	Sync bool
 }
 
+// status elements that are not a status line; negative codes -1..-len index this list
+var c14BadStatus = []string{"", "HTTP/1.1 404", "HTTP/1.1", "404 Not Found", "HTTP/1.1 abc Not Found", "HTTP/1.1 20 OK", "HTTP/1.1 200", " HTTP/1.1 200 OK", "HTTP/1.1\t200\tOK"}
+
 func statusText(code int) string {
-	if code == -1 {
-		return ""
+	if code < 0 {
+		return c14BadStatus[-code-1]
 	}
 	return fmt.Sprintf("HTTP/1.1 %d %s", code, http.StatusText(code))
 }
@@ -291,6 +294,46 @@ func c14Methods() []c14Method {
 	)
 	syncBase := []c14Resp{{Href: "/u/c/k1/o1.vcf", Props: props200(dav("getlastmodified"), dav("getetag"))}, {Href: "/u/c/k1/o2.vcf", Props: props200(dav("getlastmodified"), dav("getetag"))}}
 	out = append(out, c14Method{Name: "carddav.SyncCollection", Multi: true, Sync: true, OKStatus: 207, OKCT: xmlCT, OKBody: func() string { return c14Doc(syncBase, true) }, Base: syncBase, Required: map[qname]bool{},
+		Call: func(hc webdav.HTTPClient) (interface{}, error) {
+			return ad(hc).SyncCollection(ctx, "/u/c/k1/", &carddav.SyncQuery{SyncToken: "t"})
+		},
+		Zero: func(res interface{}, i int, p qname) (bool, bool) {
+			sr := res.(*carddav.SyncResponse)
+			if i >= len(sr.Updated) {
+				return false, false
+			}
+			switch p.Local {
+			case "getlastmodified":
+				return sr.Updated[i].ModTime.IsZero(), true
+			case "getetag":
+				return sr.Updated[i].ETag == "", true
+			}
+			return false, false
+		}})
+	// HasSupport needs a DAV header: handled by the scripted client (always sends DAV: 1, addressbook on 2xx)
+	// the multistatus also reports the synchronized collection itself (RFC 6578 3.6: 507 on the request-URI)
+	syncBase_self := append(append([]c14Resp{}, syncBase...), c14Resp{Href: "/u/c/k1/", Props: props200(dav("getetag"))})
+	out = append(out, c14Method{Name: "carddav.SyncCollection/self", Multi: true, Sync: true, OKStatus: 207, OKCT: xmlCT, OKBody: func() string { return c14Doc(syncBase_self, true) }, Base: syncBase_self, Required: map[qname]bool{},
+		Call: func(hc webdav.HTTPClient) (interface{}, error) {
+			return ad(hc).SyncCollection(ctx, "/u/c/k1/", &carddav.SyncQuery{SyncToken: "t"})
+		},
+		Zero: func(res interface{}, i int, p qname) (bool, bool) {
+			sr := res.(*carddav.SyncResponse)
+			if i >= len(sr.Updated) {
+				return false, false
+			}
+			switch p.Local {
+			case "getlastmodified":
+				return sr.Updated[i].ModTime.IsZero(), true
+			case "getetag":
+				return sr.Updated[i].ETag == "", true
+			}
+			return false, false
+		}})
+	// HasSupport needs a DAV header: handled by the scripted client (always sends DAV: 1, addressbook on 2xx)
+	// the multistatus also reports the synchronized collection itself (RFC 6578 3.6: 507 on the request-URI)
+	syncBase_self_noslash := append(append([]c14Resp{}, syncBase...), c14Resp{Href: "/u/c/k1", Props: props200(dav("getetag"))})
+	out = append(out, c14Method{Name: "carddav.SyncCollection/self-noslash", Multi: true, Sync: true, OKStatus: 207, OKCT: xmlCT, OKBody: func() string { return c14Doc(syncBase_self_noslash, true) }, Base: syncBase_self_noslash, Required: map[qname]bool{},
 		Call: func(hc webdav.HTTPClient) (interface{}, error) {
 			return ad(hc).SyncCollection(ctx, "/u/c/k1/", &carddav.SyncQuery{SyncToken: "t"})
 		},
@@ -582,7 +625,11 @@ func c14PlacementCases(m c14Method, full bool) []c14Case {
 		}
 		out = append(out, c14Case{Method: m.Name, Kind: "placement", Resps: clone(base)})
 		for ri := range base {
-			for _, st := range []int{404, 403, 500, -1, 207, 199} {
+			respStatuses := []int{404, 403, 500, -1, 207, 199}
+			for k := 2; k <= len(c14BadStatus); k++ {
+				respStatuses = append(respStatuses, -k)
+			}
+			for _, st := range respStatuses {
 				r := clone(base)
 				r[ri].Status = st
 				// a response carrying only a status has no properties: the required ones are missing
@@ -593,12 +640,26 @@ func c14PlacementCases(m c14Method, full bool) []c14Case {
 				}
 				out = append(out, c)
 			}
+			if m.Sync && strings.HasPrefix("/u/c/k1/", base[ri].Href) {
+				// the synchronized collection's own response: SyncCollection has no place for its
+				// properties and does not read them, so only its response-level status is judged
+				continue
+			}
 			for pi, p := range base[ri].Props {
-				for _, st := range []int{404, 403, 500} {
+				propStatuses := []int{404, 403, 500}
+				if pi == 0 || full {
+					for k := 1; k <= len(c14BadStatus); k++ {
+						propStatuses = append(propStatuses, -k)
+					}
+				}
+				for _, st := range propStatuses {
 					r := clone(base)
 					r[ri].Props[pi].Status = st
 					c := c14Case{Method: m.Name, Kind: "placement", Resps: r}
-					if m.Required[p.Name] || st != 404 {
+					if st < 0 {
+						// a status element that is no status line: the document cannot be interpreted
+						c.WantErr = true
+					} else if m.Required[p.Name] || st != 404 {
 						c.WantErr = true
 					} else {
 						n := p.Name
